@@ -99,8 +99,11 @@ func (w *watches) removePath(path string) ([]uint32, error) {
 
 	wds := make([]uint32, 0, 8)
 	wds = append(wds, wd)
+	// Match on whole path components, so that removing "/dir/..." doesn't also
+	// remove "/dir2".
+	prefix := strings.TrimSuffix(path, "/") + "/"
 	for p, rwd := range w.path {
-		if strings.HasPrefix(p, path) {
+		if strings.HasPrefix(p, prefix) {
 			delete(w.path, p)
 			delete(w.wd, rwd)
 			wds = append(wds, rwd)
@@ -512,7 +515,9 @@ func (w *inotify) handleEvent(inEvent *unix.InotifyEvent, buf *[65536]byte, offs
 					if k == watch.wd || ww.path == ev.Name {
 						continue
 					}
-					if strings.HasPrefix(ww.path, ev.renamedFrom) {
+					// Match on whole path components, so that renaming "dir1"
+					// doesn't also rename "dir10".
+					if ww.path == ev.renamedFrom || strings.HasPrefix(ww.path, ev.renamedFrom+"/") {
 						ww.path = strings.Replace(ww.path, ev.renamedFrom, ev.Name, 1)
 						w.watches.wd[k] = ww
 					}
